@@ -5,9 +5,10 @@
   worker, slot key), and `Ws.refines` says the messages are the reference's.  Here: who is addressed
   by which message, that requests get exactly one reply on their own connection, that a second peer
   id is refused and the connection ends, that a close leaves nothing behind when the swarm worker
-  sees the connection's messages in the order they were sent - and that with the two separate
-  channels of the implementation (requests / control) an order exists in which it does not
-  (finding F11).  Exercised only: glommio channels and tasks, TCP, WebSocket framing.
+  sees the connection's messages in the order they were sent - and, for the two separate channels of
+  the implementation (requests / control), that the order in which a close notice overtakes an
+  announce left a peer behind on the pinned tree (finding F11) and no longer does with the swarm
+  worker's memory of closed connections (its repair).  Exercised only: glommio channels and tasks, TCP, WebSocket framing.
 -/
 import Aquatic.Props.C08
 import Aquatic.Props.C09
@@ -116,55 +117,71 @@ theorem closed_connection_leaves_nothing (s : Sys) (rs : RefSys) (h : SysSim s r
     · rename_i hq; cases hg; simpa using hq
     · cases hg
 
-/-! ### the two channels between a socket worker and a swarm worker (F11) -/
+/-! ### the two channels between a socket worker and a swarm worker (F11, repaired) -/
 
 /-- what a socket worker has sent to a swarm worker and the swarm worker has not processed yet:
 announces in the request channel, close notices in the control channel; each channel is FIFO, the
-swarm worker takes from either -/
+swarm worker takes from either.  `closed`: the connections the swarm worker has been told are gone
+(`TorrentMaps::closed_connections`, added by the repair of F11) -/
 structure Pending where
   reqs : List (ConnId × AnnReq) := []
   ctrl : List (ConnId × List (Nat × Nat)) := []
+  closed : List ConnId := []
 
-/-- one scheduling decision of the swarm worker: `true` = next request, `false` = next control message -/
-def drainStep (cfg : WsCfg) (x : WMap × Pending) (takeReq : Bool) : Except Panic (WMap × Pending) :=
+/-- one scheduling decision of the swarm worker: `true` = next request, `false` = next control
+message.  `remember`: whether close notices are remembered (the code as repaired) or not (as it was) -/
+def drainStep (cfg : WsCfg) (remember : Bool) (x : WMap × Pending) (takeReq : Bool) : Except Panic (WMap × Pending) :=
   if takeReq then
     match x.2.reqs with
     | [] => .ok x
-    | (c, rq) :: t => do
-      let r ← announce cfg x.1 c rq 0 0 0
-      pure (r.1, { x.2 with reqs := t })
+    | (c, rq) :: t =>
+      if x.2.closed.contains c then .ok (x.1, { x.2 with reqs := t })      -- announce of a closed connection: dropped
+      else do
+        let r ← announce cfg x.1 c rq 0 0 0
+        pure (r.1, { x.2 with reqs := t })
   else
     match x.2.ctrl with
     | [] => .ok x
     | (c, pairs) :: t => do
       let m ← closePairs x.1 c pairs
-      pure (m, { x.2 with ctrl := t })
+      pure (m, { x.2 with ctrl := t, closed := if remember then c :: x.2.closed else x.2.closed })
 
-def drain (cfg : WsCfg) : WMap × Pending → List Bool → Except Panic (WMap × Pending)
+def drain (cfg : WsCfg) (remember : Bool) : WMap × Pending → List Bool → Except Panic (WMap × Pending)
   | x, [] => .ok x
-  | x, b :: t => match drainStep cfg x b with
+  | x, b :: t => match drainStep cfg remember x b with
     | .error e => .error e
-    | .ok y => drain cfg y t
+    | .ok y => drain cfg remember y t
 
 def demoCfg : WsCfg := ⟨10, 255, 180, 120⟩
 def demoConn : ConnId := ⟨0, 1⟩
 /-- connection 0.1 announced torrent 7 as peer 100 and was then dropped -/
-def demoPending : Pending := ⟨[(demoConn, ⟨7, 100, false, some 5, none, none⟩)], [(demoConn, [(7, 100)])]⟩
+def demoPending : Pending := ⟨[(demoConn, ⟨7, 100, false, some 5, none, none⟩)], [(demoConn, [(7, 100)])], []⟩
 
 /-- "nothing of a closed connection remains once everything it sent has been processed" -/
-def LeavesNothing (sched : List Bool) : Prop :=
-  match drain demoCfg ([], demoPending) sched with
+def LeavesNothing (remember : Bool) (sched : List Bool) : Prop :=
+  match drain demoCfg remember ([], demoPending) sched with
   | .ok (m, p) => p.reqs = [] ∧ p.ctrl = [] ∧ peerAt m 7 100 = none
   | .error _ => False
 
-instance (sched : List Bool) : Decidable (LeavesNothing sched) := by
+instance (remember : Bool) (sched : List Bool) : Decidable (LeavesNothing remember sched) := by
   unfold LeavesNothing; split <;> infer_instance
 
-/-- in sending order (request first) the entry is gone -/
-theorem in_order_leaves_nothing : LeavesNothing [true, false] := by decide
+/-- in sending order (request first) the entry is gone, with or without the memory of closed connections -/
+theorem in_order_leaves_nothing : LeavesNothing false [true, false] ∧ LeavesNothing true [true, false] := by decide
 
-/-- but the swarm worker may take the control message first: then the entry stays although the
-connection is gone (the full statement fails for the implementation's two channels - F11) -/
-theorem overtaking_leaves_peer : ¬ LeavesNothing [false, true] := by decide
+/-- the swarm worker may take the control message first: without the memory the entry stays although
+the connection is gone (F11 on the pinned tree) ... -/
+theorem overtaking_left_a_peer : ¬ LeavesNothing false [false, true] := by decide
+
+/-- ... with it, the overtaken announce is dropped -/
+theorem overtaking_is_harmless : LeavesNothing true [false, true] := by decide
+
+/-- in general: once a connection's close notice has been processed, no later announce of that
+connection changes the store -/
+theorem announce_after_close_dropped (cfg : WsCfg) (m : WMap) (p : Pending) (c : ConnId) (rq : AnnReq)
+    (t : List (ConnId × AnnReq)) (hr : p.reqs = (c, rq) :: t) (hc : p.closed.contains c = true) :
+    drainStep cfg true (m, p) true = .ok (m, { p with reqs := t }) := by
+  have hm : c ∈ p.closed := by simpa using hc
+  simp [drainStep, hr, hm]
 
 end Aquatic.Ws.C17
